@@ -3,6 +3,7 @@ package c10
 import (
 	"fmt"
 	"reflect"
+	"sort"
 	"strings"
 	"testing"
 	"time"
@@ -21,6 +22,11 @@ type FP struct {
 	I   int64  `json:"i"`
 	S   string `json:"s"`
 	Cut bool   `json:"cut,omitempty"`
+	// tag presence (flatten unit): a point need not carry every tag, in particular not the
+	// tags the data is grouped by
+	NoHost bool   `json:"nohost,omitempty"` // the host tag is absent
+	NoX    bool   `json:"nox,omitempty"`    // the x tag is absent (X == "" alone is an empty-valued tag)
+	Rack   string `json:"rack,omitempty"`   // "" = tag absent
 }
 
 type FlatCase struct {
@@ -30,11 +36,27 @@ type FlatCase struct {
 	TolSec  int64    `json:"tolsec"`
 	Drop    bool     `json:"drop"`
 	GroupBy bool     `json:"groupby"`
+	Dims    []string `json:"dims,omitempty"` // group-by tags as written in the script; empty with GroupBy = ['host']
 	Pts     []FP     `json:"pts"`
 }
 
-const ruleFlat = "rapid: flatten().on(1-2 tags)[.delimiter][.tolerance][.dropOriginalFieldName] over 1-2 groups, runs of equal (tolerance-rounded) timestamps, stream and batch; " +
-	"oracle: reference written from pipeline/flatten.go's doc comment; non-trivial = a run of >=2 points with different flatten-tag values was flattened; distinct by case hash"
+const ruleFlat = "rapid: flatten().on(1-2 tags)[.delimiter][.tolerance][.dropOriginalFieldName] over 1-4 groups (grouped by 'host' or by 'host' and 'rack', in either order), points with 0-4 tags of which any - " +
+	"also a group-by tag - may be absent, runs of equal (tolerance-rounded) timestamps, stream and batch; " +
+	"oracle: reference written from pipeline/flatten.go's doc comment (fields, time, name) and the group the points belong to (tags = exactly the group's tags, dimensions, group id); " +
+	"non-trivial = a run of >=2 points with different flatten-tag values was flattened; distinct by case hash"
+
+// dims returns the group-by tags in the order kapacitor reports them (sorted).
+func (c FlatCase) dims() []string {
+	if !c.GroupBy {
+		return nil
+	}
+	d := append([]string(nil), c.Dims...)
+	if len(d) == 0 {
+		d = []string{"host"}
+	}
+	sort.Strings(d)
+	return d
+}
 
 func genFlat(t *rapid.T) FlatCase {
 	var c FlatCase
@@ -47,13 +69,21 @@ func genFlat(t *rapid.T) FlatCase {
 	groups := 1
 	if c.GroupBy {
 		groups = rapid.IntRange(1, 2).Draw(t, "groups")
+		c.Dims = rapid.SampledFrom([][]string{nil, nil, {"host", "rack"}, {"rack", "host"}}).Draw(t, "dims")
 	}
+	// sparse: some points lack tags, also the tags the data is grouped by (every second case)
+	sparse := rapid.Bool().Draw(t, "sparse")
 	n := rapid.IntRange(0, 24).Draw(t, "n")
 	for i := 0; i < n; i++ {
 		p := FP{G: rapid.IntRange(0, groups-1).Draw(t, "g"), DC: rapid.SampledFrom([]string{"d0", "d1", "d2", "d0", "d1", ""}).Draw(t, "dc"), X: rapid.SampledFrom([]string{"a", "b", "a", ""}).Draw(t, "x"),
 			Gap: rapid.SampledFrom([]int64{0, 0, 0, 4e8, 6e8, 1e9, 1e9, 3e9}).Draw(t, "gap"), I: int64(rapid.IntRange(0, 9).Draw(t, "i")), S: rapid.SampledFrom([]string{"p", "q"}).Draw(t, "s")}
 		if c.Batch {
 			p.Cut = i == 0 || rapid.IntRange(0, 4).Draw(t, "cut") == 0
+		}
+		if sparse {
+			p.NoHost = rapid.IntRange(0, 2).Draw(t, "nohost") == 0
+			p.NoX = rapid.IntRange(0, 2).Draw(t, "nox") == 0
+			p.Rack = rapid.SampledFrom([]string{"", "", "r0"}).Draw(t, "rack")
 		}
 		c.Pts = append(c.Pts, p)
 	}
@@ -68,7 +98,11 @@ func (c FlatCase) script() string {
 		s.WriteString("stream|from().measurement('m')")
 	}
 	if c.GroupBy {
-		s.WriteString(".groupBy('host')")
+		d := c.Dims
+		if len(d) == 0 {
+			d = []string{"host"}
+		}
+		fmt.Fprintf(&s, ".groupBy(%s)", q(d))
 	}
 	fmt.Fprintf(&s, "|flatten().on(%s)", q(c.On))
 	if c.Delim != "" {
@@ -91,14 +125,36 @@ func roundT(t, tolSec int64) int64 {
 	return time.Unix(0, t).UTC().Round(time.Duration(tolSec) * time.Second).UnixNano()
 }
 
+// groupTagsOf returns the tags of the group a point with these tags belongs to: the value of
+// every group-by tag, the empty string for a tag the point does not have.
+func (c FlatCase) groupTagsOf(tags map[string]string) map[string]string {
+	if !c.GroupBy {
+		return nil
+	}
+	g := map[string]string{}
+	for _, d := range c.dims() {
+		g[d] = tags[d]
+	}
+	return g
+}
+
 func (c FlatCase) inputs() (pts []kit.Pt, bts []kit.Bt) {
 	t := t0
-	open := map[int]int{}
+	open := map[string]int{}
 	for i, p := range c.Pts {
 		t += p.Gap
-		tags := map[string]string{"host": fmt.Sprintf("h%d", p.G), "x": p.X}
+		tags := map[string]string{}
+		if !p.NoHost {
+			tags["host"] = fmt.Sprintf("h%d", p.G)
+		}
+		if !p.NoX {
+			tags["x"] = p.X
+		}
 		if p.DC != "" {
 			tags["dc"] = p.DC
+		}
+		if p.Rack != "" {
+			tags["rack"] = p.Rack
 		}
 		fields := map[string]kit.FV{"i": kit.I(p.I), "s": kit.S(p.S), "n": kit.I(int64(i))}
 		if c.Drop {
@@ -109,15 +165,18 @@ func (c FlatCase) inputs() (pts []kit.Pt, bts []kit.Bt) {
 			pts = append(pts, kit.Pt{Name: "m", Tags: tags, Fields: fields, Time: t})
 			continue
 		}
-		bi, ok := open[p.G]
+		// a batch belongs to one group and carries the group's tags (what a grouped query or
+		// window() delivers: a group-by tag the group's points lack has the empty value)
+		gk := groupKey(kit.Pt{Tags: tags, Dims: c.dims()})
+		bi, ok := open[gk]
 		if p.Cut || !ok {
 			b := kit.Bt{Name: "m", Points: []kit.Pt{}}
 			if c.GroupBy {
-				b.Tags = map[string]string{"host": tags["host"]}
+				b.Tags = c.groupTagsOf(tags)
 			}
 			bts = append(bts, b)
 			bi = len(bts) - 1
-			open[p.G] = bi
+			open[gk] = bi
 		}
 		bts[bi].Points = append(bts[bi].Points, kit.Pt{Tags: tags, Fields: fields, Time: t})
 		bts[bi].TMax = t
@@ -159,6 +218,24 @@ func (c FlatCase) flattenRun(run []kit.Pt) map[string]kit.FV {
 		}
 	}
 	return fields
+}
+
+// groupTagsOK: a point emitted for a group carries exactly the group's tags - every group-by
+// tag with the group's value and no other tag. A group-by tag the group's points do not have
+// (empty value) may be carried with the empty value or left out: the documentation does not
+// say which.
+func groupTagsOK(got, want map[string]string) bool {
+	for k, v := range got {
+		if wv, ok := want[k]; !ok || wv != v {
+			return false
+		}
+	}
+	for k, v := range want {
+		if gv, ok := got[k]; v != "" && (!ok || gv != v) {
+			return false
+		}
+	}
+	return true
 }
 
 type flatOut struct {
@@ -216,11 +293,20 @@ func runFlat(c FlatCase, cc *kit.Case) {
 		return
 	}
 	obs := env.Sink.By("S")
-	groupTags := func(host string) map[string]string {
-		if !c.GroupBy {
-			return nil
-		}
-		return map[string]string{"host": host}
+	dims := c.dims()
+	sparse, lacks := false, false
+	for _, p := range c.Pts {
+		sparse = sparse || p.NoHost || p.NoX || p.Rack != ""
+		lacks = lacks || c.GroupBy && (p.NoHost || len(dims) == 2 && p.Rack == "")
+	}
+	if sparse {
+		cc.Label("sparse-tags")
+	}
+	if lacks {
+		cc.Label("point-lacks-group-by-tag")
+	}
+	if len(dims) == 2 {
+		cc.Label("two-group-by-tags")
 	}
 	nontrivial := false
 	note := func(o flatOut) {
@@ -252,22 +338,22 @@ func runFlat(c FlatCase, cc *kit.Case) {
 			}
 			for j, e := range exp {
 				p := o.Points[j]
-				if p.Time != e.t || !reflect.DeepEqual(p.Fields, e.fields) || !(reflect.DeepEqual(p.Tags, b.Tags) || len(p.Tags) == 0 && len(b.Tags) == 0) {
+				if p.Time != e.t || !reflect.DeepEqual(p.Fields, e.fields) || !groupTagsOK(p.Tags, b.Tags) {
 					cc.Fail("flatten/point-content", "batch %d point %d: time %d tags %v fields %v, reference time %d tags %v fields %v\n%s", i, j, p.Time, p.Tags, p.Fields, e.t, b.Tags, e.fields, script)
 					return
 				}
 			}
 		}
 	} else {
+		// the group of a point: its values of the group-by tags (a missing tag counts as the empty value)
 		byG := map[string][]kit.Pt{}
+		tagsG := map[string]map[string]string{}
 		var order []string
 		for _, p := range pts {
-			g := ""
-			if c.GroupBy {
-				g = p.Tags["host"]
-			}
+			g := groupKey(kit.Pt{Tags: p.Tags, Dims: dims})
 			if _, ok := byG[g]; !ok {
 				order = append(order, g)
+				tagsG[g] = c.groupTagsOf(p.Tags)
 			}
 			byG[g] = append(byG[g], p)
 		}
@@ -277,7 +363,11 @@ func runFlat(c FlatCase, cc *kit.Case) {
 				cc.Fail("flatten/not-a-point", "output is not a point")
 				return
 			}
-			obsG[o.P.Tags["host"]] = append(obsG[o.P.Tags["host"]], *o.P)
+			if _, ok := byG[o.P.Group]; !ok {
+				cc.Fail("flatten/point-group", "flattened point %+v belongs to group %q, the input has the groups %q\n%s", *o.P, o.P.Group, order, script)
+				return
+			}
+			obsG[o.P.Group] = append(obsG[o.P.Group], *o.P)
 		}
 		for _, g := range order {
 			var exp []flatOut
@@ -298,9 +388,13 @@ func runFlat(c FlatCase, cc *kit.Case) {
 			for j, e := range exp {
 				note(e)
 				p := got[j]
-				wantTags := groupTags(g)
-				if p.Name != "m" || p.Time != e.t || !reflect.DeepEqual(p.Fields, e.fields) || !(reflect.DeepEqual(p.Tags, wantTags) || len(p.Tags) == 0 && len(wantTags) == 0) {
+				wantTags := tagsG[g]
+				if p.Name != "m" || p.Time != e.t || !reflect.DeepEqual(p.Fields, e.fields) || !groupTagsOK(p.Tags, wantTags) {
 					cc.Fail("flatten/point-content", "group %q point %d: name %s time %d tags %v fields %v, reference time %d tags %v fields %v\n%s", g, j, p.Name, p.Time, p.Tags, p.Fields, e.t, wantTags, e.fields, script)
+					return
+				}
+				if !reflect.DeepEqual(p.Dims, dims) && (len(p.Dims) != 0 || len(dims) != 0) {
+					cc.Fail("flatten/point-group", "group %q point %d: dimensions %v, the data is grouped by %v\n%s", g, j, p.Dims, dims, script)
 					return
 				}
 			}
@@ -314,6 +408,8 @@ func runFlat(c FlatCase, cc *kit.Case) {
 var assumptionsFlat = []string{
 	"points of one group with the same tolerance-rounded timestamp are flattened into one point named after the measurement, carrying the group's tags; field names are <tag values joined by the delimiter><delimiter><field> (without the field name with dropOriginalFieldName); later points overwrite equal names",
 	"a point that lacks one of the flatten tags is reported and skipped; stream edges: the last run of a group may be absent (nothing marks its end)",
+	"points that lack a group-by tag form the group in which that tag has the empty value (models.ToGroupID: a missing tag and an empty tag give the same group id; InfluxDB's GROUP BY does the same); the flattened point of such a group may carry the tag with the empty value or not at all, and never a tag that is not a group-by tag (pipeline/group_by.go: 'Only tags that are dimensions in the grouping will be preserved; all other tags are dropped'; pipeline/flatten.go's example drops the flatten tag)",
+	"the group-by tags of a point are reported sorted by name (stream.go/group_by.go: determineTagNames sorts); the group id of a point is the one models.ToGroupID computes (as in unit Nodes); batches of a group that lacks a group-by tag carry that tag with the empty value, their points do not carry it (what window() emits for such a group)",
 }
 
 func TestFlatten(t *testing.T) {
